@@ -22,10 +22,12 @@ EXTENDS JSightTree
 Trace == ndJsonDeserialize("tree_traces.ndjson")
 
 VARIABLE l
-tvars == <<l, chain, pend, st, doc>>
+tvars == <<l, chain, pend, st, doc, inc>>
 
+\* r.multi: the symbols come from several files (INCLUDE): only verdict and parents are judged
 Consistent(r) ==
   LET m == Meaning(r.doc) IN
+  IF r.multi THEN (IF m.v = "ok" THEN (r.scanned => r.par = m.par) ELSE ~r.scanned) ELSE
   CASE m.v = "ok"        -> IF r.scanned THEN r.par = m.par ELSE TRUE   \* pre-empted by a non-context diagnostic
     [] m.v = "rej_ctx"   -> ~r.scanned /\ (r.erridx = r.begins[m.at] \/ r.erridx < r.nextpos[m.at])
     [] m.v = "err_close" -> ~r.scanned /\ r.erridx <= r.begins[m.at]
